@@ -130,7 +130,7 @@ class Desc:
         return d
 
 
-def gen_desc(r, max_ops=40):
+def gen_desc(r, max_ops=40, p_raise=0.08, p_rej=0.4):
     d = Desc()
     d.np = P = r.randint(2, 6)
     Q = r.randint(2, 8)
@@ -141,7 +141,10 @@ def gen_desc(r, max_ops=40):
         if d.isdict[n]:
             d.vds.append(("id",) if r.random() < 0.7 else ("rej", r.randint(1, 30)))
         else:
-            d.vds.append(r.choice([("id",), ("id",), ("rej", r.randint(1, 30)), ("norm", r.randint(1, 9)), ("nrej", r.randint(1, 30))]))
+            if r.random() < p_rej:
+                d.vds.append(r.choice([("rej", r.randint(1, 30)), ("nrej", r.randint(1, 30))]))
+            else:
+                d.vds.append(r.choice([("id",), ("id",), ("norm", r.randint(1, 9))]))
     qnames = list(range(P, P + Q))
 
     def gen_tm(depth, j, layer, name, allow_raise=True):
@@ -156,7 +159,7 @@ def gen_desc(r, max_ops=40):
             return ("P", r.randint(0, 9), gen_tm(depth - 1, j, layer, name, allow_raise), gen_tm(depth - 1, j, layer, name, allow_raise))
         if x < 0.82:
             return ("I", r.randint(0, 40), gen_tm(depth - 1, j, layer, name, allow_raise), gen_tm(depth - 1, j, layer, name, allow_raise), gen_tm(depth - 1, j, layer, name, allow_raise))
-        if x < 0.90 and allow_raise:
+        if x < 0.82 + p_raise and allow_raise:
             return ("R", r.randint(1, 40), gen_tm(depth - 1, j, layer, name, allow_raise), gen_tm(depth - 1, j, layer, name, allow_raise))
         if layer > 0 and name is not None:
             owner = max(o for o in range(layer) if name in d.layers[o])
@@ -179,7 +182,15 @@ def gen_desc(r, max_ops=40):
         return r.randint(0, 7)
 
     d.gen_val = gen_val
-    d.init = [gen_val(n) for n in range(P)]
+    d.init = []
+    for n in range(P):
+        v = gen_val(n)
+        for _ in range(30):
+            if d.vds[n][0] in ("rej", "nrej") and oracle_I(d.vds[n][1], v):
+                v = gen_val(n)
+            else:
+                break
+        d.init.append(v)
     ops = []
     for _ in range(r.randint(5, max_ops)):
         x = r.random()
